@@ -38,8 +38,21 @@
         } else { lemma_cong_refl(0); }
     }
     // coefficient n of row k of  A o NTT(z)  -  NTT(c) o (t1*2^d)^  before the inverse transform
+    #[verifier::opaque]
     pub open spec fn vfy_wbar<const K: usize, const L: usize>(a: [[T; L]; K], zs: Seq<Seq<int>>, c: Seq<int>, t1d2m: [T; K], k: int, n: int) -> int {
         dotz(a, zs, k, n, L as int) - spec_ntt(c)[n] * demont(t1d2m[k].0[n] as int)
+    }
+    pub proof fn lemma_vfy_term<const K: usize, const L: usize>(mr: int, azv: int, cv: int, tv: int, a: [[T; L]; K], zs: Seq<Seq<int>>, cs: Seq<int>, t1d2m: [T; K], k: int, n: int)
+        requires 0 <= k < K, 0 <= n < 256, mont_rel(mr, cv * tv), cong(cv, spec_ntt(cs)[n]), tv == t1d2m[k].0[n] as int, cong(azv, dotz(a, zs, k, n, L as int)),
+        ensures cong(azv - mr, vfy_wbar(a, zs, cs, t1d2m, k, n)),
+    {
+        reveal(vfy_wbar);
+        let sc = spec_ntt(cs)[n];
+        lemma_demont(tv);
+        assert(cv * tv == tv * cv) by (nonlinear_arith);
+        lemma_mont_mul(mr, tv, cv, demont(tv), sc);
+        assert(demont(tv) * sc == sc * demont(tv)) by (nonlinear_arith);
+        lemma_cong_add(azv, dotz(a, zs, k, n, L as int), mr, sc * demont(tv));
     }
     pub open spec fn vfy_wbar_seq<const K: usize, const L: usize>(a: [[T; L]; K], zs: Seq<Seq<int>>, c: Seq<int>, t1d2m: [T; K], k: int) -> Seq<int> {
         Seq::new(256, |n: int| vfy_wbar(a, zs, c, t1d2m, k, n))
@@ -162,16 +175,43 @@
         lemma_cong_add(r1, r2, z, z);
         lemma_decompose_cong(g, r1 + z, r2 + z);
     }
+    #[verifier::opaque]
     pub open spec fn mask_ys(rhopp: Seq<u8>, kappa: int, gamma1: int, l: int) -> Seq<Seq<int>> {
         Seq::new(l as nat, |i: int| Seq::new(256, |n: int| spec_mask_coef(rhopp, kappa + i, gamma1, n)))
     }
+    #[verifier::opaque]
     pub open spec fn sgn_wbar_seq<const K: usize, const L: usize>(a: [[T; L]; K], ys: Seq<Seq<int>>, k: int) -> Seq<int> {
         Seq::new(256, |n: int| dotz(a, ys, k, n, L as int))
     }
     pub open spec fn sgn_w<const K: usize, const L: usize>(a: [[T; L]; K], ys: Seq<Seq<int>>, k: int) -> Seq<int> { spec_invntt(sgn_wbar_seq(a, ys, k)) }
     // c * s for a secret polynomial stored as NTT(s) in Montgomery form
+    #[verifier::opaque]
     pub open spec fn cmul_seq(c: Seq<int>, shm: [i32; 256]) -> Seq<int> { Seq::new(256, |n: int| spec_ntt(c)[n] * demont(shm[n] as int)) }
     pub open spec fn cmul(c: Seq<int>, shm: [i32; 256]) -> Seq<int> { spec_invntt(cmul_seq(c, shm)) }
+    pub proof fn lemma_seq_cong_intro(a: [i32; 256], b: Seq<int>)
+        requires b.len() == 256, forall|n: int| 0 <= n < 256 ==> cong(#[trigger] a[n] as int, b[n]),
+        ensures seq_cong(poly_ints(a), b),
+    {
+        assert forall|i: int| 0 <= i < 256 implies cong(#[trigger] poly_ints(a)[i], b[i]) by { assert(cong(a[i] as int, b[i])); }
+    }
+    pub proof fn lemma_cmul_len(cs: Seq<int>, shm: [i32; 256])
+        ensures cmul_seq(cs, shm).len() == 256,
+    { reveal(cmul_seq); }
+    pub proof fn lemma_cmul_term(mr: int, cv: int, tv: int, cs: Seq<int>, shm: [i32; 256], n: int)
+        requires 0 <= n < 256, mont_rel(mr, cv * tv), cong(cv, spec_ntt(cs)[n]), tv == shm[n] as int,
+        ensures cong(mr, cmul_seq(cs, shm)[n]),
+    {
+        reveal(cmul_seq);
+        let sc = spec_ntt(cs)[n];
+        lemma_demont(tv);
+        assert(cv * tv == tv * cv) by (nonlinear_arith);
+        lemma_mont_mul(mr, tv, cv, demont(tv), sc);
+        assert(demont(tv) * sc == sc * demont(tv)) by (nonlinear_arith);
+    }
+    pub proof fn lemma_wbar_at<const K: usize, const L: usize>(a: [[T; L]; K], ys: Seq<Seq<int>>, k: int, n: int)
+        requires 0 <= n < 256,
+        ensures sgn_wbar_seq(a, ys, k).len() == 256, sgn_wbar_seq(a, ys, k)[n] == dotz(a, ys, k, n, L as int),
+    { reveal(sgn_wbar_seq); }
     pub open spec fn sgn_w1fn<const K: usize, const L: usize>(a: [[T; L]; K], ys: Seq<Seq<int>>, gamma2: int) -> spec_fn(int, int) -> int {
         |k: int, n: int| spec_high_bits(gamma2, sgn_w(a, ys, k)[n])
     }
@@ -191,6 +231,89 @@
                 Q - cmul(cs, sk.t_0_hat_mont[k].0)[n],
                 sgn_w(a, ys, k)[n] - cmul(cs, sk.s_2_hat_mont[k].0)[n] + cmul(cs, sk.t_0_hat_mont[k].0)[n]) { 1int } else { 0int })
     }
+    // res is the infinity norm (of the centred representatives) of the vector w
+    pub open spec fn inf_norm_is<const ROW: usize>(w: [R; ROW], res: i32) -> bool {
+        &&& forall|x: int, n: int| 0 <= x < ROW && 0 <= n < 256 ==> spec_abs(mod_pm(#[trigger] w[x].0[n] as int, Q as int)) <= res
+        &&& exists|x: int, n: int| 0 <= x < ROW && 0 <= n < 256 && spec_abs(mod_pm(#[trigger] w[x].0[n] as int, Q as int)) == res
+    }
+    // ---- a rejected attempt of Algorithm 7 (lines 23 and 28): some bound fails for the attempt's y and challenge c
+    pub open spec fn rej_z<const K: usize, const L: usize>(sk: PrivateKey<K, L>, ys: Seq<Seq<int>>, cs: Seq<int>, l: int, n: int, bound: int) -> bool {
+        spec_abs(mod_pm(ys[l][n] + cmul(cs, sk.s_1_hat_mont[l].0)[n], Q as int)) >= bound
+    }
+    pub open spec fn rej_r0<const K: usize, const L: usize>(a: [[T; L]; K], sk: PrivateKey<K, L>, ys: Seq<Seq<int>>, cs: Seq<int>, k: int, n: int, gamma2: int, bound: int) -> bool {
+        spec_abs(spec_low_bits(gamma2, sgn_w(a, ys, k)[n] - cmul(cs, sk.s_2_hat_mont[k].0)[n])) >= bound
+    }
+    pub open spec fn rej_ct0<const K: usize, const L: usize>(sk: PrivateKey<K, L>, cs: Seq<int>, k: int, n: int, gamma2: int) -> bool {
+        spec_abs(mod_pm(cmul(cs, sk.t_0_hat_mont[k].0)[n], Q as int)) >= gamma2
+    }
+    pub open spec fn sgn_hfn<const K: usize, const L: usize>(a: [[T; L]; K], sk: PrivateKey<K, L>, ys: Seq<Seq<int>>, cs: Seq<int>, gamma2: int) -> spec_fn(int, int) -> int {
+        |k: int, n: int| if spec_make_hint(gamma2, Q - cmul(cs, sk.t_0_hat_mont[k].0)[n],
+                sgn_w(a, ys, k)[n] - cmul(cs, sk.s_2_hat_mont[k].0)[n] + cmul(cs, sk.t_0_hat_mont[k].0)[n]) { 1int } else { 0int }
+    }
+    // number of non-zero values of f among the first n (row-major, 256 per row) positions
+    pub open spec fn fn_count(f: spec_fn(int, int) -> int, n: int) -> int
+        decreases n
+    {
+        if n <= 0 { 0 } else { fn_count(f, n - 1) + (if f((n - 1) / 256, (n - 1) % 256) != 0 { 1int } else { 0int }) }
+    }
+    pub proof fn lemma_fn_count<const K: usize>(h: [R; K], f: spec_fn(int, int) -> int, n: int)
+        requires 0 <= n <= 256 * K, forall|k: int, j: int| 0 <= k < K && 0 <= j < 256 ==> #[trigger] h[k].0[j] as int == f(k, j),
+        ensures hint_count(h@, n) == fn_count(f, n),
+        decreases n
+    {
+        if n > 0 {
+            lemma_fn_count(h, f, n - 1);
+            let k = (n - 1) / 256; let j = (n - 1) % 256;
+            assert(0 <= k < K && 0 <= j < 256);
+            assert(h@[k] == h[k]);
+            assert(h[k].0[j] as int == f(k, j));
+        }
+    }
+    pub open spec fn attempt_rejected<const K: usize, const L: usize>(a: [[T; L]; K], sk: PrivateKey<K, L>, ys: Seq<Seq<int>>, c: R,
+            beta: int, gamma1: int, gamma2: int, omega: int) -> bool {
+        let cs = poly_ints(c.0);
+        ||| exists|l: int, n: int| 0 <= l < L && 0 <= n < 256 && #[trigger] rej_z(sk, ys, cs, l, n, gamma1 - beta)
+        ||| exists|k: int, n: int| 0 <= k < K && 0 <= n < 256 && #[trigger] rej_r0(a, sk, ys, cs, k, n, gamma2, gamma2 - beta)
+        ||| exists|k: int, n: int| 0 <= k < K && 0 <= n < 256 && #[trigger] rej_ct0(sk, cs, k, n, gamma2)
+        ||| fn_count(sgn_hfn(a, sk, ys, cs, gamma2), 256 * K) > omega
+    }
+    pub open spec fn rej_wit<const K: usize, const L: usize>(a: [[T; L]; K], sk: PrivateKey<K, L>, mu: Seq<u8>, ys: Seq<Seq<int>>, w1b: Seq<u8>, c: R,
+            beta: int, gamma1: int, gamma2: int, omega: int, tau: int, lam4: int) -> bool {
+        &&& w1_fields_ok(w1b, gamma2, K as int, sgn_w1fn(a, ys, gamma2))
+        &&& sib_rel(tau, shake256(stream_take(shake256(mu + w1b), 0, lam4)), c)
+        &&& attempt_rejected(a, sk, ys, c, beta, gamma1, gamma2, omega)
+    }
+    pub open spec fn rejected_at<const K: usize, const L: usize>(a: [[T; L]; K], sk: PrivateKey<K, L>, mu: Seq<u8>, rhopp: Seq<u8>, kp: int,
+            beta: int, gamma1: int, gamma2: int, omega: int, tau: int, lam4: int) -> bool {
+        exists|w1b: Seq<u8>, c: R| #[trigger] rej_wit(a, sk, mu, mask_ys(rhopp, kp, gamma1, L as int), w1b, c, beta, gamma1, gamma2, omega, tau, lam4)
+    }
+    // every attempt before kappa (counter values 0, l, 2l, ...) was rejected: kappa is the first accepted one
+    pub open spec fn all_rejected_before<const K: usize, const L: usize>(a: [[T; L]; K], sk: PrivateKey<K, L>, mu: Seq<u8>, rhopp: Seq<u8>, kappa: int,
+            beta: int, gamma1: int, gamma2: int, omega: int, tau: int, lam4: int) -> bool {
+        forall|kp: int| 0 <= kp < kappa && kp % (L as int) == 0 ==> #[trigger] rejected_at(a, sk, mu, rhopp, kp, beta, gamma1, gamma2, omega, tau, lam4)
+    }
+    pub proof fn lemma_mod_between(k: int, kp: int, l: int)
+        requires l > 0, k % l == 0, kp % l == 0, k <= kp < k + l,
+        ensures kp == k,
+    {
+        lemma_fundamental_div_mod(k, l); lemma_fundamental_div_mod(kp, l);
+        let a = k / l; let b = kp / l;
+        assert(k == l * a && kp == l * b);
+        assert(a == b) by (nonlinear_arith) requires l > 0, l * a <= l * b, l * b < l * a + l;
+    }
+    pub proof fn lemma_rej_step<const K: usize, const L: usize>(a: [[T; L]; K], sk: PrivateKey<K, L>, mu: Seq<u8>, rhopp: Seq<u8>, kappa: int, w1b: Seq<u8>, c: R,
+            beta: int, gamma1: int, gamma2: int, omega: int, tau: int, lam4: int)
+        requires L > 0, kappa >= 0, kappa % (L as int) == 0,
+            all_rejected_before(a, sk, mu, rhopp, kappa, beta, gamma1, gamma2, omega, tau, lam4),
+            rej_wit(a, sk, mu, mask_ys(rhopp, kappa, gamma1, L as int), w1b, c, beta, gamma1, gamma2, omega, tau, lam4),
+        ensures all_rejected_before(a, sk, mu, rhopp, kappa + L, beta, gamma1, gamma2, omega, tau, lam4),
+            (kappa + L) % (L as int) == 0, kappa + L >= 0,
+    {
+        lemma_mod_step(kappa, L as int);
+        assert forall|kp: int| 0 <= kp < kappa + L && kp % (L as int) == 0 implies #[trigger] rejected_at(a, sk, mu, rhopp, kp, beta, gamma1, gamma2, omega, tau, lam4) by {
+            if kp >= kappa { lemma_mod_between(kappa, kp, L as int); }
+        }
+    }
     pub open spec fn sign_rhopp(cap_k: Seq<u8>, rnd: Seq<u8>, mu: Seq<u8>) -> Seq<u8> { stream_take(shake256(cap_k + rnd + mu), 0, 64) }
     pub open spec fn sign_wit<const K: usize, const L: usize>(sk: PrivateKey<K, L>, sig: Seq<u8>, tau: int, lam4: int, a: [[T; L]; K], c: R, kappa: int) -> bool {
         expand_a_rel(sk.rho@, a) && sib_rel(tau, shake256(sig.subrange(0, lam4)), c) && kappa >= 0 && kappa % (L as int) == 0
@@ -200,6 +323,7 @@
         exists|a: [[T; L]; K], c: R, kappa: int| #[trigger] sign_wit(sk, sig, tau, lam4, a, c, kappa)
             && sign_commit(a, mask_ys(sign_rhopp(sk.cap_k@, rnd, mu), kappa, gamma1, L as int), mu, sig, gamma2, lam4)
             && sign_attempt(a, sk, mask_ys(sign_rhopp(sk.cap_k@, rnd, mu), kappa, gamma1, L as int), c, sig, beta, gamma1, gamma2, omega, lam4)
+            && all_rejected_before(a, sk, mu, sign_rhopp(sk.cap_k@, rnd, mu), kappa, beta, gamma1, gamma2, omega, tau, lam4)
     }
     // the same attempt, stated over the signer's working variables (before encoding)
     pub open spec fn attempt_exec<const K: usize, const L: usize>(a: [[T; L]; K], sk: PrivateKey<K, L>, ys: Seq<Seq<int>>, c: R, c_tilde: Seq<u8>,
@@ -229,6 +353,7 @@
             gamma1_ok(gamma1), gamma2_ok(gamma2), 1 <= K <= 8, 1 <= L <= 8, 0 <= lam4 <= 64, kappa >= 0, kappa % (L as int) == 0,
             expand_a_rel(sk.rho@, a), sib_rel(tau, shake256(c_tilde), c), rhopp == sign_rhopp(sk.cap_k@, rnd, mu),
             attempt_exec(a, sk, mask_ys(rhopp, kappa, gamma1, L as int), c, c_tilde, z, h, mu, beta, gamma1, gamma2, lam4),
+            all_rejected_before(a, sk, mu, rhopp, kappa, beta, gamma1, gamma2, omega, tau, lam4),
             forall|l: int, n: int| 0 <= l < L && 0 <= n < 256 ==> #[trigger] zmodq[l].0[n] as int == mod_pm(z[l].0[n] as int, Q as int),
             sig.subrange(0, lam4) == c_tilde,
             forall|i: int, j: int| 0 <= i < L && 0 <= j < 256 ==>
